@@ -13,10 +13,106 @@ type Gen struct {
 	names    []string // bucket-name pool
 	keys     []string // key pool
 	readers  int
+	// shadow of what probably exists (generation guidance only — never an oracle)
+	bkts   map[string][]string // path key -> path
+	keysOf map[string][]string // path key -> keys put there
+	saved  *shadowSnap
+	touched map[string]bool // bucket paths edited in the current write transaction
+}
+
+type shadowSnap struct {
+	bkts   map[string][]string
+	keysOf map[string][]string
+}
+
+func pk(p []string) string { return strings.Join(p, "\x01/") }
+
+func (g *Gen) snap() *shadowSnap {
+	s := &shadowSnap{map[string][]string{}, map[string][]string{}}
+	for k, v := range g.bkts {
+		s.bkts[k] = v
+	}
+	for k, v := range g.keysOf {
+		s.keysOf[k] = append([]string(nil), v...)
+	}
+	return s
+}
+
+func (g *Gen) restore(s *shadowSnap) {
+	g.bkts, g.keysOf = s.bkts, s.keysOf
+}
+
+// existingPath returns a bucket path that probably exists (depth >= 1) or, rarely, a random one.
+func (g *Gen) existingPath() []string {
+	if len(g.bkts) == 0 || g.R.Intn(40) == 0 {
+		return nonRoot(g, g.path(3))
+	}
+	ks := sortedKeys(g.bkts)
+	return g.bkts[ks[g.R.Intn(len(ks))]]
+}
+
+// parentPath: an existing bucket or the root.
+func (g *Gen) parentPath() []string {
+	if g.R.Intn(3) == 0 || len(g.bkts) == 0 {
+		return nil
+	}
+	p := g.existingPath()
+	if len(p) >= 4 {
+		return p[:3]
+	}
+	return p
+}
+
+func (g *Gen) noteBucket(parent []string, name string) {
+	if len(parent) > 0 {
+		if _, ok := g.bkts[pk(parent)]; !ok {
+			return // the parent probably does not exist: the call will fail
+		}
+	}
+	if name == "" {
+		return
+	}
+	p := append(append([]string{}, parent...), name)
+	g.bkts[pk(p)] = p
+}
+
+func (g *Gen) dropBucket(parent []string, name string) {
+	p := pk(append(append([]string{}, parent...), name))
+	for k := range g.bkts {
+		if k == p || strings.HasPrefix(k, p+"\x01/") {
+			delete(g.bkts, k)
+			delete(g.keysOf, k)
+		}
+	}
+}
+
+// touchedUnder: was the bucket at path e (or anything inside it) edited in the current write tx?
+func (g *Gen) touchedUnder(e []string) bool {
+	pre := pk(e)
+	for t := range g.touched {
+		if t == pre || strings.HasPrefix(t, pre+"\x01/") {
+			return true
+		}
+	}
+	return false
+}
+
+func (g *Gen) existingKey(p []string) string {
+	ks := g.keysOf[pk(p)]
+	if len(ks) == 0 || g.R.Intn(5) == 0 {
+		return g.key()
+	}
+	return ks[g.R.Intn(len(ks))]
+}
+
+func (g *Gen) noteKey(p []string, k string) {
+	if len(g.keysOf[pk(p)]) < 200 {
+		g.keysOf[pk(p)] = append(g.keysOf[pk(p)], k)
+	}
 }
 
 func NewGen(seed int64, pageSize int) *Gen {
-	g := &Gen{R: rand.New(rand.NewSource(seed)), PageSize: pageSize}
+	g := &Gen{R: rand.New(rand.NewSource(seed)), PageSize: pageSize, bkts: map[string][]string{}, keysOf: map[string][]string{}}
 	g.names = []string{"a", "b", "c", "d", "bucket-with-a-long-name", "\x00", "\xff\xfe"}
 	for i := 0; i < 40; i++ {
 		g.keys = append(g.keys, fmt.Sprintf("k%03d", i))
@@ -61,75 +157,135 @@ func (g *Gen) val() string {
 // WriteOps returns n random mutating/reading ops for transaction `tx` ("w").
 func (g *Gen) TxOps(tx string, n int, writable bool) []Op {
 	var ops []Op
+	if g.touched == nil {
+		g.touched = map[string]bool{}
+	}
 	for i := 0; i < n; i++ {
-		p := g.path(3)
+		p := g.existingPath()
 		x := g.R.Intn(100)
-		switch {
-		case !writable && x < 50:
-			x = 60 + g.R.Intn(40) // mostly reads in read transactions
+		if len(g.bkts) == 0 && writable {
+			x = 45 // nothing exists yet: create a bucket
+		}
+		if writable && x < 42 || (x >= 72 && x < 77) {
+			g.touched[pk(p)] = true
+		}
+		if !writable && x < 62 {
+			x = 68 + g.R.Intn(32) // mostly reads in read transactions
 		}
 		switch {
-		case x < 25:
-			ops = append(ops, Op{K: "put", Tx: tx, Path: nonRoot(g, p), Key: g.key(), Val: g.val()})
-		case x < 33:
+		case x < 22:
+			k := g.key()
+			if g.R.Intn(3) == 0 {
+				k = g.existingKey(p)
+			}
+			ops = append(ops, Op{K: "put", Tx: tx, Path: p, Key: k, Val: g.val()})
+			g.noteKey(p, k)
+		case x < 30:
 			// bulk fill: sequential keys cross split thresholds
-			pp := nonRoot(g, p)
 			pre := g.names[g.R.Intn(3)]
-			cnt := 5 + g.R.Intn(60)
+			cnt := 5 + g.R.Intn(80)
 			v := g.val()
 			if len(v) > g.PageSize {
 				cnt = 3
 			}
 			for j := 0; j < cnt; j++ {
-				ops = append(ops, Op{K: "put", Tx: tx, Path: pp, Key: fmt.Sprintf("%s%04d", pre, j), Val: v})
+				k := fmt.Sprintf("%s%04d", pre, j)
+				ops = append(ops, Op{K: "put", Tx: tx, Path: p, Key: k, Val: v})
+				g.noteKey(p, k)
 			}
-		case x < 38:
+		case x < 36:
 			// bulk delete of a sequential range (merges, emptied leaves)
-			pp := nonRoot(g, p)
 			pre := g.names[g.R.Intn(3)]
 			lo := g.R.Intn(40)
-			cnt := 5 + g.R.Intn(60)
-			for j := lo; j < lo+cnt; j++ {
-				ops = append(ops, Op{K: "del", Tx: tx, Path: pp, Key: fmt.Sprintf("%s%04d", pre, j)})
+			cnt := 5 + g.R.Intn(80)
+			if g.R.Intn(4) == 0 {
+				lo, cnt = 0, 90 // everything with that prefix
 			}
-		case x < 45:
-			ops = append(ops, Op{K: "del", Tx: tx, Path: nonRoot(g, p), Key: g.key()})
+			for j := lo; j < lo+cnt; j++ {
+				ops = append(ops, Op{K: "del", Tx: tx, Path: p, Key: fmt.Sprintf("%s%04d", pre, j)})
+			}
+		case x < 42:
+			ops = append(ops, Op{K: "del", Tx: tx, Path: p, Key: g.existingKey(p)})
+		case x < 52:
+			pp := g.parentPath()
+			nm := g.names[g.R.Intn(3)]
+			ops = append(ops, Op{K: "mkbi", Tx: tx, Path: pp, Key: nm})
+			if writable {
+				g.noteBucket(pp, nm)
+				g.touched[pk(pp)] = true
+			}
 		case x < 57:
-			ops = append(ops, Op{K: "mkbi", Tx: tx, Path: p, Key: g.names[g.R.Intn(3)]})
-		case x < 62:
-			ops = append(ops, Op{K: "mkb", Tx: tx, Path: p, Key: g.name()})
-		case x < 66:
-			ops = append(ops, Op{K: "rmb", Tx: tx, Path: p, Key: g.name()})
-		case x < 68:
-			ops = append(ops, Op{K: "mvb", Tx: tx, Path: p, Key: g.name(), Dst: g.path(2)})
+			pp := g.parentPath()
+			nm := g.name()
+			ops = append(ops, Op{K: "mkb", Tx: tx, Path: pp, Key: nm})
+			if writable {
+				g.noteBucket(pp, nm)
+				g.touched[pk(pp)] = true
+			}
+		case x < 61:
+			// delete an existing bucket (or a random name)
+			e := g.existingPath()
+			if g.R.Intn(4) == 0 {
+				ops = append(ops, Op{K: "rmb", Tx: tx, Path: g.parentPath(), Key: g.name()})
+			} else {
+				ops = append(ops, Op{K: "rmb", Tx: tx, Path: e[:len(e)-1], Key: e[len(e)-1]})
+				if writable {
+					g.dropBucket(e[:len(e)-1], e[len(e)-1])
+				}
+			}
+		case x < 64:
+			e := g.existingPath()
+			dst := g.parentPath()
+			hazard := g.R.Intn(25) == 0 // rare hazard stream: destination inside the moved bucket / moved bucket edited earlier
+			if !hazard {
+				for try := 0; try < 8 && (strings.HasPrefix(pk(dst)+"\x01/", pk(e)+"\x01/") || g.touchedUnder(e)); try++ {
+					e, dst = g.existingPath(), g.parentPath()
+				}
+				if strings.HasPrefix(pk(dst)+"\x01/", pk(e)+"\x01/") || g.touchedUnder(e) {
+					continue
+				}
+			}
+			ops = append(ops, Op{K: "mvb", Tx: tx, Path: e[:len(e)-1], Key: e[len(e)-1], Dst: dst})
+			if writable {
+				g.dropBucket(e[:len(e)-1], e[len(e)-1])
+				g.noteBucket(dst, e[len(e)-1])
+			}
 		case x < 72:
-			ops = append(ops, Op{K: "get", Tx: tx, Path: nonRoot(g, p), Key: g.key()})
+			ops = append(ops, Op{K: "get", Tx: tx, Path: p, Key: g.existingKey(p)})
 		case x < 75:
-			ops = append(ops, Op{K: "nextseq", Tx: tx, Path: nonRoot(g, p)})
+			ops = append(ops, Op{K: "nextseq", Tx: tx, Path: p})
 		case x < 77:
-			ops = append(ops, Op{K: "setseq", Tx: tx, Path: nonRoot(g, p), N: uint64(g.R.Intn(1 << 20))})
+			ops = append(ops, Op{K: "setseq", Tx: tx, Path: p, N: uint64(g.R.Intn(1 << 20))})
 		case x < 79:
-			ops = append(ops, Op{K: "seq", Tx: tx, Path: nonRoot(g, p)})
+			ops = append(ops, Op{K: "seq", Tx: tx, Path: p})
 		case x < 82:
-			ops = append(ops, Op{K: "keys", Tx: tx, Path: p})
+			ops = append(ops, Op{K: "keys", Tx: tx, Path: g.parentPath()})
 		case x < 84:
-			ops = append(ops, Op{K: "dump", Tx: tx, Path: p})
-		case x < 86:
-			// malformed stream: empty keys/names, oversize key, key/bucket clashes
-			switch g.R.Intn(5) {
+			ops = append(ops, Op{K: "dump", Tx: tx, Path: g.parentPath()})
+		case x < 87:
+			// malformed stream: empty keys/names, oversize key, key/bucket clashes, missing paths
+			switch g.R.Intn(7) {
 			case 0:
-				ops = append(ops, Op{K: "put", Tx: tx, Path: nonRoot(g, p), Key: "", Val: "v"})
+				ops = append(ops, Op{K: "put", Tx: tx, Path: p, Key: "", Val: "v"})
 			case 1:
-				ops = append(ops, Op{K: "mkb", Tx: tx, Path: p, Key: ""})
+				ops = append(ops, Op{K: "mkb", Tx: tx, Path: g.parentPath(), Key: ""})
 			case 2:
-				ops = append(ops, Op{K: "put", Tx: tx, Path: nonRoot(g, p), Key: strings.Repeat("B", 32769), Val: "v"})
+				ops = append(ops, Op{K: "put", Tx: tx, Path: p, Key: strings.Repeat("B", 32769), Val: "v"})
 			case 3:
-				ops = append(ops, Op{K: "put", Tx: tx, Path: nonRoot(g, p), Key: g.names[g.R.Intn(3)], Val: "clash"})
+				ops = append(ops, Op{K: "put", Tx: tx, Path: g.parentPath(), Key: g.names[g.R.Intn(3)], Val: "clash"})
 			case 4:
-				ops = append(ops, Op{K: "mkb", Tx: tx, Path: nonRoot(g, p), Key: g.key()})
+				ops = append(ops, Op{K: "mkb", Tx: tx, Path: p, Key: g.existingKey(p)})
+			case 5:
+				ops = append(ops, Op{K: "put", Tx: tx, Path: nonRoot(g, g.path(3)), Key: g.key(), Val: "v"})
+			case 6:
+				ops = append(ops, Op{K: "del", Tx: tx, Path: g.parentPath(), Key: g.names[g.R.Intn(3)]})
 			}
 		default:
-			ops = append(ops, g.cursorOps(tx, p)...)
+			cp := p
+			if g.R.Intn(4) == 0 {
+				cp = g.parentPath()
+			}
+			ops = append(ops, g.cursorOps(tx, cp)...)
 		}
 	}
 	return ops
@@ -160,9 +316,12 @@ func (g *Gen) cursorOps(tx string, p []string) []Op {
 		case 5, 6:
 			ops = append(ops, Op{K: "cprev", Cur: id})
 		default:
-			k := g.key()
+			k := g.existingKey(p)
 			if g.R.Intn(2) == 0 {
-				k = fmt.Sprintf("%s%04d", g.names[g.R.Intn(3)], g.R.Intn(70))
+				k = fmt.Sprintf("%s%04d", g.names[g.R.Intn(3)], g.R.Intn(90))
+			}
+			if g.R.Intn(6) == 0 {
+				k += "\x00"
 			}
 			ops = append(ops, Op{K: "cseek", Cur: id, Key: k})
 		}
@@ -183,9 +342,12 @@ func (g *Gen) History(nTx int, withReaders, withReopen bool) []Op {
 			ops = append(ops, Op{K: "beginr", Tx: id})
 		}
 		ops = append(ops, Op{K: "beginw"})
+		sn := g.snap()
+		g.touched = map[string]bool{}
 		ops = append(ops, g.TxOps("w", 1+g.R.Intn(12), true)...)
 		if g.R.Intn(8) == 0 {
 			ops = append(ops, Op{K: "rollback"})
+			g.restore(sn)
 		} else {
 			ops = append(ops, Op{K: "commit"})
 		}
